@@ -157,12 +157,31 @@ func checkC17(c *Check) {
 		}
 		c.Fn(funcDisplayName(fn))
 		sites := 0
+		rowOf17 := map[*ssa.Function][]Row{}
+		for _, row := range d.Rows {
+			rowOf17[row.Fn] = append(rowOf17[row.Fn], row)
+		}
+		type site17 struct {
+			es EmitSite
+			hc hctx
+		}
+		var sites17 []site17
 		for _, es := range EmitSites(p) {
-			if es.Fn != fn {
+			if FuncPkgPath(es.Fn) != ModPath+"/"+pkgSshd {
 				continue
 			}
+			// the emit may sit in a helper called from the entry function
+			ctxs, _ := rowContexts(p, es.Fn, rowOf17, 0)
+			for _, hc := range ctxs {
+				if hc.Entry == fn {
+					sites17 = append(sites17, site17{es, hc})
+				}
+			}
+		}
+		for _, s17 := range sites17 {
+			es, hc := s17.es, s17.hc
 			sites++
-			ev := ExtractEvent(p, NewResolver(p), es.Event, es.Call)
+			ev := ExtractEvent(p, hc.R, es.Event, es.Call)
 			sv := ev.EffectiveSrcs(p, "source.value")
 			pv := ev.EffectiveSrcs(p, "source.extra.port")
 			okv := hasOnlyGroup(sv, rv.Name, "Source")
@@ -170,14 +189,27 @@ func checkC17(c *Check) {
 			c.Cond(okv && okp, "routing", name+" in "+fn.Name(), p.InstrPos(es.Call), "source.value <- group Source, source.extra.port <- group Port of the same pattern", fmt.Sprintf("recorded source is not the Source/Port group of %s: source.value=%v port=%v", rv.Name, sv, pv))
 			// emit unconditional after the match: guards of the emit are only the nil-check of the match
 			extra := 0
-			for _, g := range GuardsOf(es.Call) {
-				a := atomsOf(g)
-				if b, ok := a.V.(*ssa.BinOp); ok {
-					if isNilConst(b.Y) || isNilConst(b.X) {
-						continue
-					}
+			// guards of the emit and of every call on the chain from the entry function
+			var ats []ssa.Instruction
+			ats = append(ats, es.Call)
+			for cur := es.Fn; cur != nil && cur != fn; {
+				s := hc.R.Site[cur]
+				if s == nil {
+					break
 				}
-				extra++
+				ats = append(ats, s)
+				cur = s.Parent()
+			}
+			for _, at := range ats {
+				for _, g := range GuardsOf(at) {
+					a := atomsOf(g)
+					if b, ok := a.V.(*ssa.BinOp); ok {
+						if isNilConst(b.Y) || isNilConst(b.X) {
+							continue
+						}
+					}
+					extra++
+				}
 			}
 			c.Cond(extra == 0, "unconditional-emit", name+" in "+fn.Name(), p.InstrPos(es.Call), "the emit depends only on the pattern having matched", "the emit is additionally conditional: an attempt can be dropped depending on field contents")
 		}
